@@ -125,4 +125,9 @@ def run(ctx):
             b = rng.choice([e for e in [case["vector"]] + case["mods"] if e is not a])
             a["rid"] = b["rid"]
             case["shared_id"] = True
+        if rng.random() < 0.2 and case["mods"]:
+            # a module listed twice (the same object: a pooled parts list that shares a part)
+            import copy
+            case["mods"].insert(rng.randrange(len(case["mods"]) + 1), copy.deepcopy(rng.choice(case["mods"])))
+            case["listed_twice"] = True
         ctx.guard(check_case, case)
